@@ -201,7 +201,10 @@ theorem encoder_exists_ulaw (version ftype n resn : Nat) (convert : Bool) (cols 
       obtain ⟨c, hcm, rfl⟩ := hm
       simp [hc c hcm]
 
-example : (0 : Nat) < 256 ∧ TYPE_AU2 = 8 := by decide
+example : ∃ p : Program, WF p ∧ sem false p = [255, 0, 127, 128] := by
+  obtain ⟨p, h, _, _, hs⟩ := encoder_exists_ulaw 2 TYPE_AU2 2 3 false [[255, 127], [0, 128]]
+    (by decide) (Or.inr rfl) (by simp) (by decide) (by simp) (by simp)
+  exact ⟨p, h, by rw [hs]; decide⟩
 
 /-! ## errors -/
 
@@ -220,6 +223,10 @@ theorem early_end_file (p : Program) (convert : Bool) (hwf : WF p) (body rest : 
     (m : Nat) (hbits : wordBits (body.drop 5) = (encode p).take m) (hlt : m < (encode p).length) :
     decodeFile convert body = .error (.io .eof) :=
   decodeFile_truncated p convert hwf body rest hb hm hv m hbits hlt
+
+/-- a body that is just the magic -/
+theorem early_end_magic_only (convert : Bool) : decodeFile convert MAGIC = .error (.io .eof) := by
+  simp [decodeFile, MAGIC]
 
 example : (match decodeFile false ((encodeFile exampleProgram).take 30) with
     | .error (.io .eof) => true | _ => false) = true := by decide +kernel
